@@ -296,6 +296,123 @@ def body(chk, db, cfgname):
         g = db.fn("Pomerol::%sOperator::prepare" % diff[0], nparams=0)
         r5.bad("FieldOperator::prepare:siblings", g.loc(), "%sOperator::prepare differs structurally from CreationOperator::prepare" % diff[0], cfgname)
 
+    # ================================================================== R6
+    r6 = chk.rule("C07-R6", "blocks are keyed by QuantumNumbers, whose identity is a hash: the hash is recomputed from the whole ordered vector after every change of the numbers, and <, ==, != compare the hashes of the two objects", "F4 paired state", 6)
+    QN = "Pomerol::Symmetrizer::QuantumNumbers"
+    numbers = ("field", QN + "::numbers", THIS)
+    hfield = ("field", QN + "::NumbersHash", THIS)
+    gen = ("field", QN + "::numbers_hash_generator", THIS)
+    full = ("op", "()", gen, numbers)
+    rec = db.records.get(QN)
+    site = QN + "::numbers_hash_generator"
+    gt = [fl for fl in (rec or {}).get("fields", []) if fl["n"] == "numbers_hash_generator"]
+    if not gt:
+        r6.unknown(site, "", "hash generator member not found", cfgname)
+    elif strip_targs(gt[0]["t"]) == "boost::hash" and "std::vector" in gt[0]["t"]:
+        r6.ok(site, "%s:%s" % (rec["file"], rec["line"]), "boost::hash<std::vector<...>>: a range hash, sensitive to the position of every element", cfgname)
+    else:
+        r6.unknown(site, "%s:%s" % (rec["file"], rec["line"]), "hash generator of type %s: order sensitivity unknown" % gt[0]["t"], cfgname)
+    for g in [x for x in db.fns.values() if x.rec == QN and x.body is not None and x.body >= 0]:
+        gctx = thr.ctx(g)
+        writes = []
+        hashes = []
+        for j, n in g.walk(g.body):
+            tgt = None
+            if n["k"] == "bin" and n["op"] in ("=", "+=", "-=", "*=", "/=", "^=", "|=", "&="):
+                tgt = gctx.key(n["l"], inline=False)
+                rhs = n["r"]
+            elif n["k"] == "call" and n.get("ck") == "op" and n.get("op") in ("=", "^=") and len(n["args"]) == 2:
+                tgt = gctx.key(n["args"][0], inline=False)
+                rhs = n["args"][1]
+            if tgt is None:
+                continue
+            if tgt == numbers or (tgt[0] == "op" and tgt[1] == "[]" and tgt[2] == numbers):
+                writes.append(j)
+            elif tgt == hfield:
+                hashes.append((j, n["op"], gctx.key(rhs)))
+        for j, n in g.walk(g.body):
+            if n["k"] == "call" and n.get("ck") == "method" and n.get("obj") is not None and gctx.key(n["obj"], inline=False) == numbers and \
+                    strip_targs(n.get("cname") or "").split("::")[-1] in ("push_back", "resize", "assign", "clear", "insert", "erase", "swap"):
+                writes.append(j)
+        if g.kind == "ctor":
+            inits = {i_.get("field"): gctx.key(i_["e"]) for i_ in g.d.get("inits", [])}
+            site = "%s/%d:initial-hash" % (g.qn, len(g.params))
+            order = [i_.get("field") for i_ in g.d.get("inits", [])]
+            fieldorder = [fl["n"] for fl in rec["fields"]]
+            if inits.get("NumbersHash") == full and fieldorder.index("numbers") < fieldorder.index("NumbersHash") and fieldorder.index("numbers_hash_generator") > fieldorder.index("NumbersHash"):
+                # the generator is stateless (boost::hash): using it before its own construction is harmless
+                r6.ok(site, g.loc(), "NumbersHash initialised as hash(numbers) after numbers (declaration order)", cfgname)
+            elif inits.get("NumbersHash") == full and fieldorder.index("numbers") < fieldorder.index("NumbersHash"):
+                r6.ok(site, g.loc(), "NumbersHash initialised as hash(numbers) after numbers (declaration order)", cfgname)
+            else:
+                r6.bad(site, g.loc(), "NumbersHash is not initialised from the freshly constructed numbers (or is declared before them): objects with equal numbers start with different identities", cfgname)
+            continue
+        if not writes:
+            continue
+        site = "%s/%d:hash-follows-numbers" % (g.qn, len(g.params))
+        recompute = [j for j, op, rk in hashes if op == "=" and rk == full]
+        ok_all = True
+        for w in writes:
+            pw = g.cfg.pos1(w)
+            rp = [g.cfg.pos1(j) for j in recompute]
+            if pw is None or None in rp:
+                raise AnalysisBroken("position of a write in %s" % g.qn)
+            exits = [g.cfg.pos1(j) for j, n in g.walk(g.body) if n["k"] == "return"]
+            rps = set(rp)
+            if not rp or any(g.cfg.paths_avoiding(pw, (lambda b, i, e_, _t=e: (b, i) == _t), (lambda b, i, e_: (b, i) in rps)) for e in exits if e is not None):
+                ok_all = False
+        if ok_all:
+            r6.ok(site, g.loc(writes[0]), "every write to numbers is followed on all paths by NumbersHash = hash(numbers)", cfgname)
+        elif not hashes:
+            r6.bad(site, g.loc(writes[0]), "numbers are changed but NumbersHash is not recomputed: comparisons and the block map use a stale identity", cfgname)
+        else:
+            j, op, rk = hashes[0]
+            pars = [("param", p_["d"], p_["n"]) for p_ in g.params]
+
+            def outside_subscript(k, target, inside=False):
+                if k == target:
+                    return not inside
+                if not isinstance(k, tuple):
+                    return False
+                if k[0] == "op" and len(k) == 4 and k[1] == "[]":
+                    return outside_subscript(k[2], target, inside) or outside_subscript(k[3], target, True)
+                return any(outside_subscript(x, target, inside) for x in k[1:] if isinstance(x, tuple))
+            whole = key_contains(rk, lambda x: x == numbers) and outside_subscript(rk, numbers)
+            # does the position argument flow anywhere except into subscripts, bounds comparisons and log output?
+            pm_ = g.parent_map()
+            intpars = {p_["d"] for p_ in g.params if "int" in (p_.get("t") or "") or "short" in (p_.get("t") or "") or "long" in (p_.get("t") or "")}
+            posdep = False
+            for jj, nn in g.walk(g.body):
+                if nn["k"] == "ref" and nn.get("dk") == "param" and nn["d"] in intpars:
+                    ch, pa = jj, pm_.get(jj)
+                    while pa is not None and g.nodes[pa]["k"] == "cast":
+                        ch, pa = pa, pm_.get(pa)
+                    pn_ = g.nodes[pa] if pa is not None else {}
+                    harmless = (pn_.get("k") == "call" and pn_.get("ck") == "op" and pn_.get("op") == "[]" and len(pn_["args"]) == 2 and pn_["args"][1] == ch) or \
+                               (pn_.get("k") == "bin" and pn_.get("op") in ("<", "<=", ">", ">=", "==", "!=", "[]")) or \
+                               (pn_.get("k") == "call" and pn_.get("ck") == "op" and pn_.get("op") == "<<")
+                    if not harmless:
+                        posdep = True
+            if not whole and not posdep:
+                r6.bad(site, g.loc(j), "NumbersHash is updated incrementally from element values only (%s): the update does not depend on the position of the changed element, so the identity is symmetric in the quantum numbers — (1,2) and (2,1) name the same block" % g.s(j)[:90], cfgname)
+            else:
+                r6.unknown(site, g.loc(j), "NumbersHash is updated in a form that is not a recomputation from the whole vector: %s" % g.s(j)[:90], cfgname)
+    for opn, rel in (("operator<", "<"), ("operator==", "=="), ("operator!=", "!=")):
+        g = db.fn(QN + "::" + opn, nparams=1)
+        gctx = thr.ctx(g)
+        rhsp = ("param", g.params[0]["d"], g.params[0]["n"])
+        rets = [j for j, n in g.walk(g.body) if n["k"] == "return"]
+        site = QN + "::" + opn
+        k = gctx.key(g.nodes[rets[0]]["sub"]) if len(rets) == 1 else None
+        want_ = ("op", rel, hfield, ("field", QN + "::NumbersHash", rhsp))
+        alt = ("op", {"<": ">", "==": "==", "!=": "!="}[rel], ("field", QN + "::NumbersHash", rhsp), hfield)
+        if k in (want_, alt):
+            r6.ok(site, g.loc(), "this->NumbersHash %s rhs.NumbersHash" % rel, cfgname)
+        elif k is not None and key_contains(k, lambda x: x == numbers):
+            r6.unknown(site, g.loc(), "comparison looks at the numbers themselves: not the hash idiom", cfgname)
+        else:
+            r6.bad(site, g.loc(), "%s does not compare the hash of this object with the hash of rhs by '%s': the three relations disagree about which quantum numbers are equal" % (opn, rel), cfgname)
+
     chk.undecided.append("that accepted integrals of motion make H block diagonal and every c, c^+, c^+c single-target at the value level; mapsTo takes the image block from the first non-annihilated state (sound only for linear integrals of motion) and QuantumNumbers are compared through a floating-point hash: noted, not armed")
     chk.trusted.append("virtual calls (Operator::getMatrixElement) are summarised through their static callee")
 
